@@ -229,9 +229,10 @@ func runE2E(o *corr.Out) {
 			o.OracleOK("error-after-closesend")
 		}
 	}
-	// replay of Props.C10.manual_flush_masks_error_counterexample
+	// regression for fix 56786c9 (DESIGN §9-13): ManualFlush with an unflushed message must not mask the
+	// handler's error as end-of-stream (Props.C10.handler_error_reaches_client holds for every `u`)
 	{
-		sc := base("script", "noread", 0, "replay:manualflush")
+		sc := base("script", "noread", 0, "regress:manualflush")
 		sc.manualFlush, sc.chain, sc.wantCode, sc.nrecv = true, "C9/L:6d61736b65642025", 9, 2
 		e := r.env(sc.mode, true)
 		e.svc.set(sc)
@@ -242,10 +243,11 @@ func runE2E(o *corr.Out) {
 			r.drop(sc.mode, true)
 		} else {
 			o.Case(sc.request(), strings.Join(res, " "), true)
-			if len(res) == 0 || !strings.HasPrefix(res[0], "e:9:") {
-				o.Oracle("manualflush-masks-error", "ManualFlush unflushed message then handler error code=9", "client received "+strings.Join(res, " "))
+			want := "e:9:" + digest([]byte(buildChain(sc.chain).Error()))
+			if len(res) != 2 || res[0] != want || res[1] != want {
+				o.Oracle("manualflush-error-visible", "ManualFlush unflushed message then handler error code=9", "client received "+strings.Join(res, " "))
 			} else {
-				o.OracleOK("manualflush-masks-error")
+				o.OracleOK("manualflush-error-visible")
 			}
 			// the same connection still works
 			var pout rawMsg
